@@ -286,3 +286,42 @@ PROPS['C14'] = dict(
     level_text='generated requests covering all planning branches, judged by predicates with stated tolerances; sampling, not proof',
     level_note='trusts the feasibility inequality and tolerance constants in exec/C14.cc; limits in [0.05, 200], distances in [1e-3, 1e4]',
 )
+
+PROPS['C13'] = dict(
+    level='exploration',
+    rule='choice tape -> (a) one membership function of the 13 families with break points sorted by construction (equalities with probability 1/4 for trap/tri/lins/linz, non-zero widths for gauss/gbell/sig/S/Z/pi, equal slopes '
+         'and ordered centres for dsig) and x from {far left/right, each break point and its neighbours within 2 ulp, midpoints, random}: value in [0,1] (never NaN), equal to the documented piecewise shape evaluated in long double '
+         '(4..256 ulp of 1 per family), exactly 1 on the core of the compact families incl. degenerate shoulders, S+Z = lins+linz = 1, monotone on each flank for a second point, dispatcher bit-equal; a zero-width ramp may take any '
+         'value in [0,1] at its single break point; (b) a pair (and a third value) of membership degrees incl. 0, 1, equal values, denormals: each of the seven operators equals its documented formula (2 ulp, 8 for equ), is commutative '
+         'bit for bit, monotone, intersections <= min, unions >= max, boundary cases at 0 and 1, equ between the algebraic product and sum, equ_(1/2)=equ; (c) a fuzzy PID with rule order 2..7, any of the seven operators, membership '
+         'tables generated as ordered partitions (tri with end shoulders as in the repository test, trap, gauss, mixed lins/linz/S/Z/pi/gbell; neighbour overlap 1..2.5 widths), integer consequents, and up to 12 steps with e and ec on '
+         'set centres, inside, around and far outside the tables: after each step gain - base gain = weighted mean of the consequents of the active rules (weights by the documented formula in double, accumulated in long double), inside '
+         '[min,max] of those consequents, finite, and unchanged when no rule is active; the scratch buffer is re-set every step to an exact-size heap block of A_PID_FUZZY_BFUZZ(N) bytes, N = number of simultaneously active sets (ASan). '
+         'non-trivial = (a) x within 2 ulp of a break point or a degenerate shoulder, (b) both degrees strictly inside (0,1), (c) >= 2 active sets on both inputs; distinct = hash of decoded parameters',
+    assumptions=COMMON_ASSUME + ['declared exception to oracle independence: the inference reference takes membership values from liba\'s public a_mf dispatcher, which part (a) validates separately',
+                                 'at a degenerate break point the core value 1 is required (MATLAB trimf/trapmf convention); a zero-width lins/linz ramp is only required to stay in [0,1] at its step'],
+    units=lambda tier, seed: [Unit('fuzzy', 'exec/C13.cc', ['a.c', 'math.c', 'mf.c', 'fuzzy.c', 'pid.c', 'pid_fuzzy.c'], tape_len=400)],
+    plan={'quick': dict(rc_procs=10, rc_cases=30000, fuzz_procs=6, fuzz_secs=25),
+          'thorough': dict(rc_procs=8, rc_cases=400000, fuzz_procs=8, fuzz_secs=300)},
+    technique='property-based testing: differential check of every membership function against its documented definition in long double, algebraic laws of the operators, and a reference weighted-mean model of the fuzzy inference with an exact-size ASan-guarded scratch buffer; rapidcheck tapes + libFuzzer',
+    level_text='generated parameters, break-point-centred inputs, degree pairs and rule bases judged against reference definitions and laws; sampling, not proof',
+    level_note='trusts the reference definitions in exec/C13.cc and exec/fuzzy_gen.h; rule order <= 7',
+)
+
+PROPS['C12'] = dict(
+    level='exploration',
+    rule='choice tape -> controller kind (plain / fuzzy-tuned / single neuron / zero-vs-fresh pair), configuration and a history of up to 200 steps. Exact class: integer set-points and feedback |v| <= 1000, dyadic gains j/8 (|j| <= 64, ki >= 0), '
+         'integer limits with summin <= 0 <= summax and outmin <= outmax (every intermediate exactly representable); real class: magnitudes up to 1e6 over 40 binades. Steps pick run / positional / incremental mode (switched within a history), '
+         'zero, or a gain change. After every step: outmin <= out <= outmax, all state fields finite; plain/exact: output, integrator and cached fields equal a reference written from the documented difference equations exactly (real class: '
+         'one-step equation within 64 ulp of the term magnitudes); integrator monotone once outside its clamp and overshooting by at most one increment; an incremental twin fed the same positional history agrees exactly for as long as no limit '
+         'is active; zero then H2 equals a freshly initialised controller on H2 bit for bit (plain and neuron, the neuron keeping its present weights); a fuzzy controller with an all-zero rule base equals the plain controller exactly; fuzzy tables/operators '
+         'as in C13 with the scratch buffer sized for all sets. non-trivial = history in which an output or integrator limit became active and inactive again, or a zero occurred mid-history; distinct = hash of configuration and decoded steps',
+    assumptions=COMMON_ASSUME + ['inputs obey the quantifier: ki >= 0, summin <= 0 <= summax, outmin <= outmax, magnitudes <= 1e6 so that no intermediate overflows',
+                                 'the reference model follows the equations documented in pid.h; on the exact class all arithmetic is exact, so equality is required'],
+    units=lambda tier, seed: [Unit('pid', 'exec/C12.cc', ['a.c', 'math.c', 'mf.c', 'fuzzy.c', 'pid.c', 'pid_fuzzy.c', 'pid_neuro.c'], tape_len=500)],
+    plan={'quick': dict(rc_procs=10, rc_cases=15000, fuzz_procs=6, fuzz_secs=25),
+          'thorough': dict(rc_procs=8, rc_cases=250000, fuzz_procs=8, fuzz_secs=300)},
+    technique='model-based stateful property-based testing: exact reference of the documented difference equations on an exactly representable input class, invariants after every step, twin-controller metamorphic relations (positional = incremental, zero = fresh, zero rule base = plain); rapidcheck tapes + libFuzzer',
+    level_text='generated configurations and input histories for all three controllers and modes; exact equality on the exactly representable class; sampling, not proof',
+    level_note='trusts the reference equations in exec/C12.cc; histories <= 200 steps',
+)
